@@ -68,6 +68,7 @@ type fakeIDP struct {
 	rotate   bool
 	validRT  map[string]*rtInfo
 	codes    map[string]*authzRequest
+	codeSeq  int
 	parReqs  map[string]url.Values
 	nextMode string // "", "4xx", "5xx", "badjson"
 	log      []idpLogEntry
@@ -105,7 +106,8 @@ func (p *fakeIDP) RefreshPublicJwkSet(_ context.Context) (*jwk.Set, error) {
 func (p *fakeIDP) authorize(params url.Values, sid, acr string) string {
 	p.mu.Lock()
 	defer p.mu.Unlock()
-	code := fmt.Sprintf("code-%d", len(p.codes)+1)
+	p.codeSeq++
+	code := fmt.Sprintf("code-%d", p.codeSeq)
 	p.codes[code] = &authzRequest{Params: params, Sid: sid, Acr: acr}
 	return code
 }
